@@ -228,7 +228,7 @@ theorem scalar_agree (m : Method) {a a' : Arr} {i : Nat} (h : reachEq a a' i = t
   | timestamp u tz v vals =>
     obtain ⟨v', vals', rfl, hv, hx⟩ := reachEq_timestamp h; unfold scalar; simp only [primGet_congr hv hx, codecRead_congr hv hx]
   | decimal128 p s v vals =>
-    obtain ⟨v', vals', rfl, hv, hx⟩ := reachEq_decimal h; unfold scalar; simp only [primGet_congr hv hx, codecRead_congr hv hx]
+    obtain ⟨v', vals', rfl, hv, hx⟩ := reachEq_decimal h; unfold scalar; simp only [codecRead_congr hv hx]
   | bytes ty v offs data =>
     obtain ⟨v', offs', rfl, hv, h0, h1⟩ := reachEq_bytes h; unfold scalar; simp only [bytesColGet_congr hv h0 h1]
   | bytesView ty v views buffers =>
